@@ -32,6 +32,7 @@ from ._actions import (
     _find_parent_action_and_subcommand,
     _is_action_value_list,
     _is_branch_key,
+    _is_group_key,
     filter_default_actions,
     parent_parsers,
     previous_config,
@@ -1374,6 +1375,8 @@ class ArgumentParser(ParserDeprecations, ActionsContainer, ArgumentLinking, argp
                 if isinstance(value, Namespace):
                     new_keys = value.__dict__.keys()
                     keys += [key + "." + k for k in new_keys if key + "." + k not in keys]
+                    if not new_keys and action is None and not (_is_branch_key(self, key) or _is_group_key(self, key)):
+                        value = {}  # empty mapping in an unknown key, kept as a leaf so that validation reports it
                 cfg[key] = value
                 continue
 
